@@ -57,6 +57,14 @@ var plrmOpCases = []struct{ prog, want string }{
 	{"/s << /a 1 >> def /t 1 dict def s t copy t eq t /a get", "true 1"}, {"/x 1 def 1 dict begin /x 2 def x end x", "2 1"}, {"/x 1 def /x 2 def x", "2"},
 	{"1 dict begin /x 5 def currentdict end /x get", "5"}, {"<< /a 1 /a 2 >> /a get", "2"}, {"<< >> length", "0"}, {"<< /a 1 >> dup /a 2 put /a get", "2"},
 	{"/p { 1 2 add } def p", "3"}, {"/p { 1 2 add } def /p load", "{1 2 add}"},
+	// name look-up is done afresh every time: the topmost dictionary holding the key wins, however the key got there
+	// (def, put, copy, definefont) and whatever was looked up before
+	{"/x 1 def 5 dict begin x pop currentdict /x 2 put x", "2"}, {"/x 1 def 5 dict begin /x load pop currentdict /x 2 put /x load", "2"},
+	{"/x 1 def 5 dict begin x pop currentdict /x 2 put /x where pop /x get x eq", "true"}, {"1 2 add pop userdict /add {sub} put 5 3 add", "2"},
+	{"/x 1 def 3 dict begin x pop << /x 7 >> currentdict copy pop x", "7"}, {"/F 1 def FontDirectory begin F pop /F 3 dict definefont pop F type", "/dicttype"},
+	{"/x 1 def 5 dict begin x pop /x 2 def x", "2"}, {"/x 1 def x pop userdict /x 2 put x", "2"}, {"/x 1 def 2 dict begin /x 2 def x end x 2 dict begin x", "2 1 1"},
+	{"/d 2 dict def /x 1 def d begin x end d /x 5 put d begin x end x", "1 5 1"}, {"/x 1 def /p {x} def p 1 dict begin p currentdict /x 9 put p end p", "1 1 9 1"},
+	{"/x 1 def /d1 1 dict def /d2 1 dict def d1 begin d2 begin x d1 /x 2 put x d2 /x 3 put x end x end x", "1 2 3 2 1"},
 	// fonts and resources
 	{"/F << /FontType 1 >> definefont /FontType get", "1"}, {"/F << /FontType 1 >> definefont pop /F findfont /FontType get", "1"},
 	{"/F << /FontType 1 >> definefont /F findfont eq", "true"}, {"/F << /FontType 1 >> definefont pop FontDirectory /F known", "true"}, {"FontDirectory /Nope known", "false"},
